@@ -1,7 +1,7 @@
 (* Props/C02.v — property theorems only; proofs in Proofs/C02Prefix.v, Proofs/C02Messages.v. *)
 From Coq Require Import List NArith.
 From Cedar Require Import Lib.Bytes Lib.Sym gen.Consts Model.Frame Model.FrameSpec
-     Proofs.FrameBase Proofs.C12Nonce Proofs.C02Prefix Proofs.C02Messages.
+     Proofs.FrameBase Proofs.C12Nonce Proofs.C01Sre Proofs.C02Prefix Proofs.C02Messages Proofs.C02Sre.
 Import ListNotations.
 Local Open Scope N_scope.
 
@@ -21,6 +21,16 @@ Theorem C02_prefix :
     prefix (snd (fst (fst (recv_upto api B n fs')))) (map payload_of h).
 Proof. exact delivered_is_prefix. Qed.
 Print Assumptions C02_prefix.
+
+(* The same through StartMessageRead / ReadMessageBytes / EndMessageRead. *)
+Theorem C02_prefix_start_read_end :
+  forall (h : list msg) (A B A1 : stream) (fs fs' : list frame) (k : bytes) (K : ctext -> Prop) (n : nat),
+    duplex A B -> rclean B -> key A = Some k -> encrypted A = true -> wf_send A ->
+    send_all A h = (A1, SOk fs) ->
+    known_ok k (enc_iv A) (enc_ctr A) fs K -> uses_only K fs' ->
+    prefix (snd (fst (fst (recv_upto ApiStartReadEnd B n fs')))) (map payload_of h).
+Proof. exact delivered_is_prefix_sre. Qed.
+Print Assumptions C02_prefix_start_read_end.
 
 (* Frame level: the (payload, end flag) pairs accepted before the first rejection are a
    prefix of what the sender sent. *)
